@@ -86,11 +86,14 @@ type world struct {
 	wid      int
 	future   func() time.Duration // how far in the future a "future" deadline lies
 	panicked atomic.Value         // string
+	// lastSet["l/wr"]: the instant the most recent Set*Deadline call of that end asked for, for that half, if it lies in
+	// the future (what the CALLER asked for, whatever the pipe made of it); used by the real-time replay only
+	lastSet map[string]time.Time
 }
 
 func newWorld(future func() time.Duration) *world {
 	pl, pr := netio.NewPipe()
-	return &world{pl: pl, pr: pr, future: future, log: []event{{E: "reset", Data: [][2]int{}}}}
+	return &world{pl: pl, pr: pr, future: future, log: []event{{E: "reset", Data: [][2]int{}}}, lastSet: map[string]time.Time{}}
 }
 
 func (w *world) end(t string) *netio.PipeConn {
@@ -163,6 +166,17 @@ func (w *world) do(t, op string, sz int, k string, started func()) {
 		when = time.Now().Add(-time.Second)
 	case "future":
 		when = time.Now().Add(w.future())
+	}
+	if halves := map[string][]string{"SetRD": {"rd"}, "SetWD": {"wr"}, "SetD": {"rd", "wr"}}[op]; halves != nil {
+		w.mu.Lock()
+		for _, h := range halves {
+			if k == "future" {
+				w.lastSet[t[:1]+"/"+h] = when
+			} else {
+				delete(w.lastSet, t[:1]+"/"+h)
+			}
+		}
+		w.mu.Unlock()
 	}
 	switch op {
 	case "Write":
@@ -756,13 +770,57 @@ func report(w *world, res *vio.Result, bi int, hist any) {
 	}
 }
 
+// callList renders the calls of a behaviour issued so far, for violation texts.
+func callList(hist []any) string {
+	var sb strings.Builder
+	for i, h := range hist {
+		a, ok := h.(action)
+		if !ok {
+			continue
+		}
+		if i > 0 {
+			sb.WriteString(" ; ")
+		}
+		if a.N == "Fire" {
+			fmt.Fprintf(&sb, "%v deadline of %s expires", a.W, a.E)
+			continue
+		}
+		fmt.Fprintf(&sb, "%s.%s", a.T, a.Op)
+		if k, _ := a.K.(string); k != "" && k != "-" {
+			fmt.Fprintf(&sb, "(%s)", k)
+		}
+	}
+	return sb.String()
+}
+
 func firstLine(s string) string {
 	a, _, _ := strings.Cut(s, "\n")
 	return a
 }
 
-func replayBehaviour(in *vio.Input, bi int, b vio.Behaviour, res *vio.Result) (trace string) {
-	w := newWorld(func() time.Duration { return time.Hour })
+// realFuture is the distance of a "future" deadline in the real-time replay; an expiry is awaited for
+// realFuture + realMargin (margin = 3x).
+const (
+	realFuture = 60 * time.Millisecond
+	realMargin = 3 * realFuture
+)
+
+// realtimeReruns bounds the number of behaviours a process re-executes in real time.
+var realtimeReruns = 12
+
+// replayBehaviour executes one behaviour of the model.  Normally a "future" deadline lies an hour ahead and the
+// model's Fire action makes the armed timer expire through the timer's own handle.  If the pipe has NO armed timer
+// where the model has one, the behaviour is executed a second time in real time (realtime = true): "future" is
+// realFuture ahead and Fire waits until that instant has passed by the margin, so that what is judged is again only
+// what a caller can see: a call that is still parked although the deadline its end was given has expired.
+func replayBehaviour(in *vio.Input, bi int, b vio.Behaviour, res *vio.Result, realtime bool) (trace string) {
+	w := newWorld(func() time.Duration {
+		if realtime {
+			return realFuture
+		}
+		return time.Hour
+	})
+	needRealtime := false
 	var ops []*opRun
 	var hist []any
 	byThread := map[string]*opRun{}
@@ -818,10 +876,12 @@ func replayBehaviour(in *vio.Input, bi int, b vio.Behaviour, res *vio.Result) (t
 				switch {
 				case strings.HasSuffix(want, ",timeout)"):
 					res.Violation(vio.Finding{Key: "pipe.deadline/parked-call-not-unblocked", Behaviour: bi, Step: si, Expected: want, Observed: got,
-						Text: fmt.Sprintf("%s(%s) stays parked although its deadline has expired (model: %s)", o.op, t, want), Replay: hist})
+						Text: fmt.Sprintf("%s(%s) stays parked although its deadline has expired (model: %s); calls: %s", o.op, t, want, callList(hist)),
+						Replay: map[string]any{"behaviour": b, "calls": hist}})
 				case strings.HasSuffix(want, ",closed)") || strings.HasSuffix(want, ",eof)") || strings.HasSuffix(want, ",custom)"):
 					res.Violation(vio.Finding{Key: "pipe.halfclose/parked-call-not-unblocked", Behaviour: bi, Step: si, Expected: want, Observed: got,
-						Text: fmt.Sprintf("%s(%s) stays parked although its direction was shut down (model: %s)", o.op, t, want), Replay: hist})
+						Text: fmt.Sprintf("%s(%s) stays parked although its direction was shut down (model: %s); calls: %s", o.op, t, want, callList(hist)),
+						Replay: map[string]any{"behaviour": b, "calls": hist}})
 				}
 			}
 			if got != want {
@@ -870,6 +930,23 @@ func replayBehaviour(in *vio.Input, bi int, b vio.Behaviour, res *vio.Result) (t
 					c = w.pr
 				}
 				which, _ := a.W.(string)
+				if realtime {
+					w.mu.Lock()
+					at, ok := w.lastSet[a.E+"/"+which]
+					w.mu.Unlock()
+					if !ok {
+						if !drifted {
+							res.DriftNote(vio.Finding{Key: "pipe.replay/model-drift", Behaviour: bi, Step: si,
+								Text: fmt.Sprintf("model fires the %s deadline timer of end %s but no call asked for a future deadline there", a.W, a.E), Replay: hist})
+						}
+						drifted = true
+						break
+					}
+					if d := time.Until(at.Add(realMargin)); d > 0 {
+						time.Sleep(d)
+					}
+					break
+				}
 				h, err := deadlineOf(c, which)
 				if err != nil {
 					res.Break("cannot reach the deadline timer: %v", err)
@@ -878,8 +955,16 @@ func replayBehaviour(in *vio.Input, bi int, b vio.Behaviour, res *vio.Result) (t
 				switch h.fire() {
 				case "noTimer":
 					if !drifted {
+						// On the model's path so far, and the model has an armed timer here (a Set*Deadline(future) of this
+						// end reached this half).  Whether that matters to a caller is decided by executing the behaviour in
+						// real time.
 						res.DriftNote(vio.Finding{Key: "pipe.replay/model-drift", Behaviour: bi, Step: si,
-							Text: fmt.Sprintf("model fires the %s deadline timer of end %s but the pipe has no pending timer", a.W, a.E), Replay: hist})
+							Text: fmt.Sprintf("model fires the %s deadline timer of end %s but the pipe has no pending timer (behaviour re-executed in real time)", a.W, a.E), Replay: hist})
+						if realtimeReruns > 0 {
+							realtimeReruns--
+							needRealtime = true
+							goto end
+						}
 					}
 					drifted = true
 				case "stuck":
@@ -912,7 +997,11 @@ end:
 	}
 	res.Sample(map[string]any{"behaviour": bi, "calls": hist}, 2)
 	w.log[0].Src = hist
-	return w.ndjson()
+	trace = w.ndjson()
+	if needRealtime {
+		trace += replayBehaviour(in, bi, b, res, true)
+	}
+	return trace
 }
 
 func TestReplay(t *testing.T) {
@@ -927,7 +1016,7 @@ func TestReplay(t *testing.T) {
 		}
 	}()
 	for bi, b := range in.Behaviours {
-		tr := replayBehaviour(in, bi, b, res)
+		tr := replayBehaviour(in, bi, b, res, false)
 		if tr != "" {
 			res.Traces = append(res.Traces, tr)
 		}
